@@ -43,12 +43,19 @@ def rule_b(ctx, cone):
     for b in range(send.nblocks()):
         t = send.term(b)
         if t["k"] == "switch" and any(e[0] == "discr" and mentions(e, lambda x: x[0] == "call" and x[1] == tb) for e in [deep_strip(x) for x in flow(send).term_operand(b, t["d"])]):
+            okk = True; some_exit = False
             for tg, lab in send.succ_labeled(b):
                 if lab == "sw:1":
                     continue
                 r = cfg.reachable(send, tg, unwind=False)
-                calls = [send.term(x).get("def") for x in r if send.term(x)["k"] == "call"]
-                okk = not calls and bool(r & set(send.exits())) and not any(x in c for c in cfg.cycles(send) for x in r)
+                if not (r & set(send.exits())):
+                    continue        # `unreachable` arm of an exhaustive match
+                some_exit = True
+                cs = [send.term(x).get("def") for x in r if send.term(x)["k"] == "call"]
+                calls += cs
+                if cs or any(x in c for c in cfg.cycles(send) for x in r):
+                    okk = False
+            okk = okk and some_exit
     ctx.check(okk, rid, "send:full-drops", "when no slot is free, send goes straight to return (drops, never waits or retries)", send.span, calls)
 
 
@@ -87,14 +94,19 @@ def rule_c(ctx, cone):
                 seen = 0
                 while st and seen < 40:
                     e = st.pop(); seen += 1
-                    if e[0] == "agg" and e[1][0] == "adt" and e[1][1].endswith("ops::range::Range"):
+                    if e[0] == "agg" and e[1][0] == "adt" and (e[1][1].endswith("ops::range::Range") or e[1][1].endswith("ops::range::RangeInclusive")):
                         rng = e; break
+                    if e[0] == "call" and (e[3] or "").endswith("RangeInclusive::<Idx>::new"):
+                        a = [deep_strip(x) for k in range(2) for x in flow(new).term_arg(e[1], k)]
+                        rng = ("agg", ("adt", "core::ops::range::RangeInclusive", "RangeInclusive", ()), tuple(a)); break
                     if e[0] == "call":
                         for ai in range(len(new.term(e[1])["args"])):
                             st += [deep_strip(x) for x in flow(new).term_arg(e[1], ai)]
                     elif e[0] in ("ref", "deref", "cast"):
                         st.append(deep_strip(e[1]))
                 lo = fold(rng[2][0]) if rng else None; hi = fold(rng[2][1]) if rng else None
+                if rng and rng[1][1].endswith("RangeInclusive") and hi is not None:
+                    hi += 1
                 arg = [deep_strip(e) for e in flow(new).term_arg(bb, 1)]
                 item = all(mentions(e, lambda x: x[0] == "call" and x[1] == nxt[0]) for e in arg)
                 okk = lo == 1 and hi == S + 1 and item
